@@ -333,6 +333,7 @@ Definition run_words (ws : list string) : string :=
                                               (hex_or_empty sigkey) (hex_or_empty sigdata))
   | ["ssl2chenc"; ciphers; sid; ch] =>
       "OK " ++ hex_of_bytes (enc_ssl2_client_hello 2 (zlist_of_string ciphers) (hex_or_empty sid) (hex_or_empty ch))
+  | ["ssl2recenc"; t; h] => show_opt (enc_ssl2_record (z_of_string t) (hex_or_empty h))
   | ["ssl2shenc"; hit; ct; cert; ciphers; cid] =>
       "OK " ++ hex_of_bytes (enc_ssl2_server_hello (z_of_string hit) (z_of_string ct) 2 (hex_or_empty cert) (zlist_of_string ciphers) (hex_or_empty cid))
   | "sshmsg" :: name :: args => match ssh_msg_of name args with Some fs => "OK " ++ hex_of_bytes (enc_fields fs) | None => "BADCMD" end
